@@ -170,6 +170,7 @@ def check_gate(chk, prog, env, model):
     prog.func(unit, 'jwt_verify_sig')
     n_paths = 0
     n_accept = 0
+    accepts = {}
     bad = 0
     dig_n = 0
     dig_bad = 0
@@ -198,6 +199,7 @@ def check_gate(chk, prog, env, model):
                 if fl != 0:
                     continue
                 n_accept += 1
+                accepts[(provider, alg_name)] = accepts.get((provider, alg_name), 0) + 1
                 accept = None
                 why = 'no verification result on the path'
                 for e in s.trace:
@@ -321,6 +323,7 @@ def check_gate(chk, prog, env, model):
                                  'verification result (EVP_DigestVerify==1 / gnutls verify>=0 / exact compare==0) with the right operands',
              n_paths, bad, floor=100)
     chk.coverage['accepting_paths'] = n_accept
+    chk.verify_accepts = accepts
     chk.rule('C01.digest-scheme', 'hash/padding selected on accepting paths equals RFC 7518 for the algorithm', dig_n, dig_bad, floor=20)
     chk.rule('C01.signature-regions', 'every (pointer,length) region of the decoded signature handed to the crypto library lies inside it',
              reg_n, reg_bad, floor=12)
